@@ -7,9 +7,9 @@ use crate::wire;
 
 pub fn defs() -> Vec<ScenarioDef> {
     vec![
-        ScenarioDef { name: "reliable-stream", prop: "C01", plan: plan_c01, check: check_c01, nontrivial_rule: "at least one network fault fired on user traffic and at least one repair path (resent DATA/DATA_FRAG, GAP, or NACK_FRAG) was exercised" },
-        ScenarioDef { name: "besteffort-stream", prop: "C02", plan: plan_c02, check: check_c02, nontrivial_rule: "at least one fault (drop, dup or reorder) fired on user traffic and the reader presented at least one sample" },
-        ScenarioDef { name: "fragment-sweep", prop: "C05", plan: plan_c05, check: check_c05, nontrivial_rule: "at least one fragmented sample was sent and a fault hit DATA_FRAG traffic" },
+        ScenarioDef { name: "reliable-stream", prop: "C01", plan: plan_c01, check: check_c01, nontrivial_rule: "at least one network fault fired on user traffic and at least one repair path (resent DATA/DATA_FRAG, GAP, or NACK_FRAG) was exercised", quick_runs: 3000, thorough_runs: 300000, died_is_violation: true },
+        ScenarioDef { name: "besteffort-stream", prop: "C02", plan: plan_c02, check: check_c02, nontrivial_rule: "at least one fault (drop, dup or reorder) fired on user traffic and the reader presented at least one sample", quick_runs: 3000, thorough_runs: 300000, died_is_violation: false },
+        ScenarioDef { name: "fragment-sweep", prop: "C05", plan: plan_c05, check: check_c05, nontrivial_rule: "at least one fragmented sample was sent and a fault hit DATA_FRAG traffic", quick_runs: 3000, thorough_runs: 300000, died_is_violation: true },
     ]
 }
 
@@ -151,7 +151,7 @@ fn gen_stream(cfg: &Cfg, seed: u64, tier: &str) -> Plan {
         }
         clients.push(script(ops));
     }
-    let period = *r.pick(&[200u64, 1000, 5000, 20_000]);
+    let period = *r.pick(&[1000u64, 5000, 20_000]);
     for (rd, _) in &readers {
         clients.push(daemon(vec![Op::Drain { r: *rd, period_us: period, read_only: false }]));
     }
@@ -291,7 +291,8 @@ fn check_stream(plan: &Plan, out: &Outcome, liveness: bool) -> Verdict {
                     }
                     let missing: Vec<&(u32, u64)> = expected.iter().filter(|(u, _)| !seen.contains_key(u)).collect();
                     if !missing.is_empty() {
-                        if !complete && healed_mark.is_none() {
+                        let window_elapsed = healed_mark.is_some_and(|t| out.sim_ns >= t + p.liveness_ms * 1_000_000);
+                        if !complete && !window_elapsed {
                             // run ended before the liveness window: harness budget problem, not a verdict
                             v.inconclusive = true;
                             continue;
@@ -311,7 +312,7 @@ fn check_stream(plan: &Plan, out: &Outcome, liveness: bool) -> Verdict {
     // pending writes at the end (blocked forever) on reliable writers
     if liveness && out.panics.is_empty() {
         let pend = pubs.values().flatten().filter(|x| !x.3).count();
-        if pend > 0 && healed_mark.is_some() {
+        if pend > 0 && healed_mark.is_some_and(|t| out.sim_ns >= t + p.liveness_ms * 1_000_000) {
             v.violate(prop, &format!("{prop}.write-blocked"), format!("{prop}.write-blocked"), format!("{pend} write call(s) never returned although the network healed"));
         }
     }
